@@ -20,9 +20,9 @@ def sh(cmd, timeout=None, env=None, cwd=ROOT):
 
 
 # ---------------------------------------------------------------------------------------------- E1
-def e1(name, src, quick=None, thorough=None, libflags="-O0 -g", deadline=(100, 780), env=None, harness_flags=""):
+def e1(name, src, quick=None, thorough=None, libflags="-O0 -g", deadline=(100, 780), env=None, harness_flags="", require_pids=()):
     return {"kind": "e1", "name": name, "src": src, "libflags": libflags, "args": {"quick": quick or "", "thorough": thorough or ""},
-            "deadline": {"quick": deadline[0], "thorough": deadline[1]}, "env": env or {}, "harness_flags": harness_flags}
+            "deadline": {"quick": deadline[0], "thorough": deadline[1]}, "env": env or {}, "harness_flags": harness_flags, "require_pids": list(require_pids)}
 
 
 def run_e1(pid, c, tier, seed):
@@ -46,6 +46,10 @@ def run_e1(pid, c, tier, seed):
     if not os.path.exists(stats):
         raise CheckError("explorer produced no statistics (rc=%d):\n%s" % (rc, out[-2000:]))
     st = json.load(open(stats))
+    missing = [p for p in c.get("require_pids", []) if p not in st.get("pids_seen", [])]
+    if missing and not st["deadline_hit"] and not st.get("found"):
+        st["vacuous"] = True
+        print("  [%s] VACUOUS: hook points %s were never reached" % (name, missing))
     found = []
     for f in st.get("found", []):
         found.append({"key": "%s: %s" % (name, f["program"]), "msg": "%s with %d deviation(s): %s" % (f["verdict"], f["deviations"], f["msg"]),
@@ -184,3 +188,14 @@ prop("C20", lambda tier: [e1("c20", "harness/c20_timed.c"),
      "E1: nanosleep/usleep/sleep with a runnable sibling, timedlock against no holder / a holder yielding 1 or 3 times, timedjoin against a finished target / a target yielding 1 or 3 times, "
      "each with deadlines {1 s past, now, now+3 ticks, now+8 ticks}, x all schedules with <= K deviations where every clock read is a decision (default +1 tick, deviation: jump 1 s); "
      "E3: timespec_add/gt on all 900 pairs of boundary values vs 128-bit arithmetic, nanosleep argument validation on 12 classes")
+
+prop("C02", lambda tier: [
+        binc("c02e2", "engine/build_e2.sh c02e2 harness/c02_wsqueue_e2.c", "build/c02e2/c02e2 --stats {stats} --tier quick --jobs {jobs} --deadline {deadline}",
+             "build/c02e2/c02e2 --stats {stats} --tier thorough --jobs {jobs} --deadline {deadline}",
+             "E2 unitmc (explicit-state search; every load/store/atomic of the real queue code is a transition; SC and x86-TSO)", deadline=(150, 1500)),
+        e1("c02", "harness/c02_sched.c", env={"EXTRA_LIB_DEFS": "-DMYTH_VERIF_QUEUE_SIZE=8"}, require_pids=(4, 53))],
+     "E2: every configuration (capacity 4/8 x prologue fill incl. both storage boundaries x owner program over {push,pop,put} x 1-2 thief programs over {take, take-accept, take-decline, peek, trypass} "
+     "x {SC, x86-TSO}) explored exhaustively at access granularity (all interleavings, all store-buffer flush timings), multiset oracle at quiescence; "
+     "E1: fan-out / yield ping-pong / parent-first burst / mutex wake-up / custom-steal programs on an 8-entry run queue x all schedules with <= K deviations",
+     assumptions=E1_ASSUME + ["E2: x86-TSO abstract machine (per-participant FIFO store buffers, locked instructions and draining fences empty the buffer) executed over the real object code; "
+                              "fence strength comes from the MYTH_VERIF_FENCE annotations in src/myth_mem_barrier_func.h; histories stay within the queue capacity (growth is unimplemented, overflow a documented fatal error)"])
